@@ -681,8 +681,8 @@ func (e *runtimeEnv) buildFuncNode(l *leafImpl, cfg *LeafCfg, wait time.Duration
 	}
 	// batch settings on a node that is NOT a batch node (NewNode, not NewBatchNode) configure nothing the run of a
 	// single node looks at: a third of the function-style leaves carry them (which, and in which form, is a function
-	// of the node id so that the scenario stays deterministic)
-	if id := l.rt0.id; id%3 == 1 {
+	// of the node id and its configuration so that the scenario stays deterministic)
+	if id := l.rt0.id + cfg.Budget + cfg.Wait + len(cfg.PrepS) + 2*len(cfg.PostS); id%3 == 1 {
 		conc, cont := 1+id%4, id%2 == 0
 		add(6+id%2, flyt.WithBatchConcurrency(conc), func(b *flyt.NodeBuilder) { b.WithBatchConcurrency(conc) })
 		if id%5 != 0 {
